@@ -11,8 +11,8 @@ import (
 
 func init() {
 	register(&PropMeta{
-		ID:    "C05",
-		Level: "other",
+		ID:          "C05",
+		Level:       "other",
 		Explanation: "Decides the data flow that makes 'dealt in' equal 'eligible': (R1) at open the dealt-in flag of every player (loop over the full list) is copied from the seat manager's eligibility answer for that same player, only after positions were initialised/rotated, and every failure returns the old table; (R2) the hand list is built only from flagged players; (R3) eligibility ≡ seated-in ∧ not waiting ∧ has chips; (R4) every bankroll writer outside construction refreshes the seat manager's has-chips flag for that player (settlement: through the continue step's loop over all players with Bankroll > 0); (R5) both assigners set the waiting flag of a new seat from 'positions initialised ? between dealer and BB : false', and the predicate is false for short deck; (R6) the rotation re-evaluates the waiting flag only for non-eligible seats; (R7) fewer than two eligible ⇒ the rotation refuses and the open step reports the open-failed error; (R8) the seated-in flag is set together with the seat manager's. NOT decided: 'never misses more than three hands', eligibility persistence over histories.",
 		Rules: map[string]string{
 			"R1": "dealt-in flag ← SeatManager.IsPlayerActive(same player) for every player, after init/rotate; failures return the old table",
@@ -334,6 +334,9 @@ func checkC05(c *Ctx) {
 		wk.Run()
 		c.Check(ok && !wk.Aborted, "R5", "waiting-predicate", p.Pos(f.Pos()), "true only when initialised and not short deck", d)
 	}
+
+	// the waiting predicate's wrap-around arithmetic (shared rule with C04.R1)
+	checkWrapCounters(c, "R5", func(f *ssa.Function) bool { return inSeatManagerPkg(p, f) }, 2)
 
 	// ---------------- R6
 	rotW := p.Method(smT, "RotatePositions")
